@@ -23,7 +23,9 @@ def import_path(spec, i, j):
         return mod_name(j)
     if di == "" and dj:
         return dj + "/" + mod_name(j)
-    return None      # a module in the sub-directory cannot reach the root (`..` does not parse)
+    if dj.startswith(di + "/"):
+        return dj[len(di) + 1:] + "/" + mod_name(j)
+    return None      # a module cannot reach upwards (`..` does not parse)
 
 
 class State:
@@ -200,7 +202,7 @@ def _neg_line(spec, i):
 
 def generate(rng, max_mods=5, negative=False):
     n = rng.range(2, max_mods)
-    dirs = [""] + [rng.choice(["", "", "lib"]) for _ in range(n - 1)]
+    dirs = [""] + [rng.choice(["", "", "lib", "lib", "lib/sub"]) for _ in range(n - 1)]
     spec = {"mods": [{"dir": d, "stmts": []} for d in dirs]}
     # edges i -> j (i < j); every non-entry module reachable from some earlier module that can reach it
     edges = {}
